@@ -317,8 +317,12 @@ def eval_adverb_scan_over(f, a, op, backend):
     """
         see eval_adverb_scan_over_neutral
     """
-    if is_atom(a):
+    if is_empty(a):
         return a
+    if is_atom(a):
+        # reference: "If only one single argument is supplied, the argument
+        # will be returned in a list, e.g.: +\\1 --> [1]"
+        return backend.kg_asarray([a])
     # Use backend's ufunc accumulate when available for better performance
     np_backend = backend.np
     if isinstance(op, KGOp):
